@@ -11,6 +11,7 @@ open Gen
 section
 variable {K V B : Type} [DecidableEq K]
 
+omit [DecidableEq K] in
 theorem Spec.ext' {s t : Spec K V} (h1 : s.vis = t.vis) (h2 : s.dur = t.dur) : s = t := by
   cases s; cases t; simp_all
 
@@ -112,7 +113,7 @@ theorem popitemP_spec (c : Codec V B) (st : St K V B) (h : Inv st) :
   cases hl : st.cache.getLast? with
   | none =>
     have : st.cache = [] := List.getLast?_eq_none_iff.1 hl
-    simp [popitemP, hl, h, Spec.step, this]
+    simp [popitemP, h, Spec.step, this]
   | some kv =>
     obtain ⟨k, v⟩ := kv
     have hmem : (k, v) ∈ st.cache := List.mem_of_getLast? hl
